@@ -5,6 +5,7 @@ Nothing here is an oracle of verde code: the analytic gridder and the projection
 closed forms the monitors in c05.py evaluate themselves.
 """
 import functools
+import threading
 import weakref
 
 import numpy as np
@@ -16,6 +17,37 @@ EPS = float(np.finfo("float64").eps)
 EXPECT = weakref.WeakKeyDictionary()
 
 _CLASSES = {}
+
+# gridder -> Rendezvous: makes concurrent predict() calls of one gridder overlap (kept outside the monitored object)
+SYNC = weakref.WeakKeyDictionary()
+
+
+class Rendezvous:
+    """
+    A reusable meeting point with a timeout: a predict() call waits here until `parties` calls are inside predict at the same time
+    (or the timeout passes, so an implementation that serialises the calls cannot deadlock).
+    """
+
+    def __init__(self, parties, timeout=0.05):
+        self.parties, self.timeout = parties, timeout
+        self.cond = threading.Condition()
+        self.waiting = 0
+        self.generation = 0
+        self.met = 0
+
+    def meet(self):
+        with self.cond:
+            generation = self.generation
+            self.waiting += 1
+            if self.waiting >= self.parties:
+                self.generation += 1
+                self.waiting = 0
+                self.met += 1
+                self.cond.notify_all()
+                return
+            self.cond.wait_for(lambda: self.generation != generation, timeout=self.timeout)
+            if self.generation == generation:
+                self.waiting -= 1
 
 
 def analytic_classes():
@@ -42,6 +74,9 @@ def analytic_classes():
             return self
 
         def predict(self, coordinates):
+            sync = SYNC.get(self)
+            if sync is not None:
+                sync.meet()
             east = np.asarray(coordinates[0], dtype="float64")
             north = np.asarray(coordinates[1], dtype="float64")
             out = tuple(a * east + b * north + c * east * north for a, b, c in self.consts)
